@@ -37,11 +37,11 @@ def make_universe(model):
     E, F, S = model.Entry, model.Field, model.String
     return {
         "E1a": E("article", "k1", [F("t", "x")]),
-        "E1b": E("article", "k1", [F("t", "y")]),
+        "E1b": E("article", "k1", []),             # same key, no fields (an empty entry is a block like any other)
         "E1c": E("article", "k1", [F("t", "x")]),  # == E1a, different object
         "E2": E("book", "k2", []),
         "S1a": S("k1", "v1"),
-        "S1b": S("k1", "v2"),
+        "S1b": S("k1", ""),
         "P": model.Preamble("p"),
         "C": model.ImplicitComment("c"),
         "F": model.ParsingFailedBlock(error=Exception("x"), raw="@bad{"),
